@@ -130,6 +130,8 @@ enum Action {
 #[derive(Clone, Debug)]
 struct Case {
     m128: bool,
+    /// a host I/O extender claiming every port with A1=1 (never the paging latch) is attached (a port cycle lasts the same)
+    ext: bool,
     latch: u8,
     t: usize,
     act: Action,
@@ -137,7 +139,7 @@ struct Case {
 
 impl Case {
     fn text(&self) -> String {
-        let head = format!("{} {:02x} {}", if self.m128 { 128 } else { 48 }, self.latch, self.t);
+        let head = format!("{}{} {:02x} {}", if self.m128 { 128 } else { 48 }, if self.ext { "x" } else { "" }, self.latch, self.t);
         match &self.act {
             Action::Mreq(a, k) => format!("{} mreq {:04x} {}", head, a, k),
             Action::Port(p, w) => format!("{} port {:04x} {}", head, p, *w as u8),
@@ -150,7 +152,8 @@ impl Case {
     fn parse(s: &str) -> Option<Case> {
         let t: Vec<&str> = s.split_whitespace().collect();
         let h = |x: &str| u16::from_str_radix(x, 16).ok();
-        let m128 = *t.first()? == "128";
+        let ext = t.first()?.ends_with('x');
+        let m128 = t.first()?.trim_end_matches('x') == "128";
         let latch = h(t.get(1)?)? as u8;
         let tt: usize = t.get(2)?.parse().ok()?;
         let act = match *t.get(3)? {
@@ -165,25 +168,29 @@ impl Case {
             ),
             _ => return None,
         };
-        Some(Case { m128, latch, t: tt, act })
+        Some(Case { m128, ext, latch, t: tt, act })
     }
 }
 
 struct Rig {
     e: Emu,
     m128: bool,
+    ext: bool,
     latch: u8,
     dirty: Vec<u16>,
     poisoned: bool,
 }
 
 impl Rig {
-    fn new(m128: bool) -> Rig {
+    fn new(m128: bool, ext: bool) -> Rig {
         let mut e = emu(&Cfg::new(m128));
+        if ext {
+            e.set_io_extender(Ext { mask: 0x0002, val: 0x0002, read_value: 0xE7, log: vec![] });
+        }
         let mut d = Dbg::default();
         d.break_all = true;
         e.set_debug_interface(d);
-        Rig { e, m128, latch: 0, dirty: vec![], poisoned: false }
+        Rig { e, m128, ext, latch: 0, dirty: vec![], poisoned: false }
     }
 
     /// moves the clock to `t` without ever going backwards inside a frame
@@ -280,7 +287,7 @@ fn check_case(model: &mut Model, rig: &mut Rig, c: &Case, rep: &mut Report, batc
     let _ = model;
     let _ = rep;
     if rig.poisoned {
-        *rig = Rig::new(rig.m128);
+        *rig = Rig::new(rig.m128, rig.ext);
     }
     let (el, ops) = match catch(|| rig.run(c)) {
         Ok(x) => x,
@@ -348,7 +355,7 @@ fn flush(model: &mut Model, rep: &mut Report, batch: &mut Vec<(Case, usize, Vec<
         if *el != s {
             rep.violation(Violation {
                 kind: Kind::SpecViolated,
-                key: format!("C04/{}/{}/{}", if c.m128 { "128k" } else { "48k" }, kind_name, if *el > s { "too-slow" } else { "too-fast" }),
+                key: format!("C04/{}{}/{}/{}", if c.m128 { "128k" } else { "48k" }, if c.ext { "+ext" } else { "" }, kind_name, if *el > s { "too-slow" } else { "too-fast" }),
                 what: format!("{} at frame T-state {} (latch {:02x}): took {} T, the contention model gives {} T (uncontended {} T) for bus cycles [{}]",
                     match &c.act { Action::Instr(code, _) => format!("instruction {}", hex(code)), Action::Mreq(a, k) => format!("memory cycle {:04x}:{}", a, k), Action::Port(p, _) => format!("port cycle {:04x}", p) },
                     c.t, c.latch, el, s, plain, ops_text(ops)),
@@ -360,7 +367,7 @@ fn flush(model: &mut Model, rep: &mut Report, batch: &mut Vec<(Case, usize, Vec<
         } else if *el != m {
             rep.violation(Violation {
                 kind: Kind::ModelMismatch,
-                key: format!("C04/{}/{}/model", if c.m128 { "128k" } else { "48k" }, kind_name),
+                key: format!("C04/{}{}/{}/model", if c.m128 { "128k" } else { "48k" }, if c.ext { "+ext" } else { "" }, kind_name),
                 what: format!("case {}: took {} T, Lean model {} T", c.text(), el, m),
                 correspondence: "corr.C04.timing (Model.Machine waitMreq/ioCycle/contentionClocks vs controller.rs)".into(),
                 case: J::obj(vec![("text", J::s(c.text()))]),
@@ -577,7 +584,7 @@ interesting T-states, the bus-cycle trace taken from the real Z80 on a recording
             return rep;
         }
         if let Some(c) = Case::parse(text) {
-            let mut rig = Rig::new(c.m128);
+            let mut rig = Rig::new(c.m128, c.ext);
             check_case(&mut model, &mut rig, &c, &mut rep, &mut batch);
             flush(&mut model, &mut rep, &mut batch);
         }
@@ -589,7 +596,8 @@ interesting T-states, the bus-cycle trace taken from the real Z80 on a recording
         let ts = interesting_ts(m128, o.thorough(), &mut rng);
         let latches: Vec<u8> = if m128 { (0..8).collect() } else { vec![0] };
         for latch in latches {
-            let mut rig = Rig::new(m128);
+            let mut rig = Rig::new(m128, false);
+            let mut rigx = Rig::new(m128, true);
             // (1) memory cycles, (2) port cycles — T ascending in interleaved passes so the clock moves forward
             for pass in 0..4 {
                 for (n, t) in ts.iter().enumerate() {
@@ -598,7 +606,7 @@ interesting T-states, the bus-cycle trace taken from the real Z80 on a recording
                     }
                     let a = ADDRS[(n / 4 + pass + latch as usize) % ADDRS.len()];
                     let clk = [1usize, 3, 4][(n + pass) % 3];
-                    check_case(&mut model, &mut rig, &Case { m128, latch, t: *t, act: Action::Mreq(a, clk) }, &mut rep, &mut batch);
+                    check_case(&mut model, &mut rig, &Case { m128, ext: false, latch, t: *t, act: Action::Mreq(a, clk) }, &mut rep, &mut batch);
                     rep.count("cases", "memory cycle");
                 }
                 flush(&mut model, &mut rep, &mut batch);
@@ -612,8 +620,11 @@ interesting T-states, the bus-cycle trace taken from the real Z80 on a recording
                     // avoid the paging latch on writes: ports with A1 set
                     let port = hi | [0x00FE, 0x00FF, 0x00F6, 0x0003][(n + pass) % 4];
                     let w = (n / 3) % 2 == 0;
-                    check_case(&mut model, &mut rig, &Case { m128, latch, t: *t, act: Action::Port(port, w) }, &mut rep, &mut batch);
+                    check_case(&mut model, &mut rig, &Case { m128, ext: false, latch, t: *t, act: Action::Port(port, w) }, &mut rep, &mut batch);
                     rep.count("cases", "port cycle");
+                    // the same cycle with a host extender attached (which claims these ports)
+                    check_case(&mut model, &mut rigx, &Case { m128, ext: true, latch, t: *t, act: Action::Port(port, w) }, &mut rep, &mut batch);
+                    rep.count("cases", "port cycle, host extender attached");
                 }
                 flush(&mut model, &mut rep, &mut batch);
             }
@@ -622,7 +633,8 @@ interesting T-states, the bus-cycle trace taken from the real Z80 on a recording
         let mut instrs = instr_set(true);
         instrs.extend(instr_set(false));
         let per = o.n(10, 200) as usize;
-        let mut rig = Rig::new(m128);
+        let mut rig = Rig::new(m128, false);
+        let mut rigx = Rig::new(m128, true);
         let mut cases = vec![];
         for code in &instrs {
             for k in 0..per {
@@ -630,7 +642,7 @@ interesting T-states, the bus-cycle trace taken from the real Z80 on a recording
                 let regs = random_regs(&mut r);
                 let t = if k % 2 == 0 { *r.pick(&ts) } else { r.below(frame_len(m128) as u64) as usize };
                 let latch = if m128 { r.below(8) as u8 | (r.below(2) as u8) << 4 } else { 0 };
-                cases.push(Case { m128, latch, t, act: Action::Instr(code.clone(), regs) });
+                cases.push(Case { m128, ext: k % 4 == 3, latch, t, act: Action::Instr(code.clone(), regs) });
             }
         }
         // sort by latch then T so that neither the latch nor the clock thrash
@@ -639,7 +651,7 @@ interesting T-states, the bus-cycle trace taken from the real Z80 on a recording
             if n < 2 {
                 rep.sample(J::s(c.text()));
             }
-            check_case(&mut model, &mut rig, c, &mut rep, &mut batch);
+            check_case(&mut model, if c.ext { &mut rigx } else { &mut rig }, c, &mut rep, &mut batch);
             rep.count("cases", "instruction");
             if batch.len() >= 400 {
                 flush(&mut model, &mut rep, &mut batch);
